@@ -17,13 +17,15 @@ def dyadic_hp(algo):
             lr_actor=RLParameter(min=2.0 ** -12, max=2.0 ** -4, shrink_factor=0.5, grow_factor=2.0),
             lr_critic=RLParameter(min=2.0 ** -12, max=2.0 ** -5, shrink_factor=0.25, grow_factor=4.0),
             batch_size=RLParameter(min=4, max=16, shrink_factor=0.75, grow_factor=1.5, dtype=int),
-            learn_step=RLParameter(min=1, max=8, shrink_factor=0.5, grow_factor=2.0, dtype=int),
+            # factors with which an integer value can stall (int(3 * 1.25) = 3): the value then simply stays
+            learn_step=RLParameter(min=1, max=8, shrink_factor=0.75, grow_factor=1.25, dtype=int),
             gamma=RLParameter(min=0.5, max=1.0, shrink_factor=1.125, grow_factor=0.875))      # unusual but legitimate factors
     ls = (512, 4096) if algo in ("PPO", "IPPO") else (1, 8)
     return HyperparameterConfig(
         lr=RLParameter(min=2.0 ** -12, max=2.0 ** -4, shrink_factor=0.5, grow_factor=2.0),
         batch_size=RLParameter(min=4, max=16, shrink_factor=0.75, grow_factor=1.5, dtype=int),
-        learn_step=RLParameter(min=ls[0], max=ls[1], shrink_factor=0.5, grow_factor=2.0, dtype=int),
+        learn_step=(RLParameter(min=ls[0], max=ls[1], shrink_factor=0.5, grow_factor=2.0, dtype=int) if ls[0] > 1 else
+                    RLParameter(min=1, max=8, shrink_factor=0.75, grow_factor=1.25, dtype=int)),     # integer values that can stall
         gamma=RLParameter(min=0.5, max=1.0, shrink_factor=1.125, grow_factor=0.875))
 
 
